@@ -11,8 +11,8 @@ import (
 // ---- C03: close delivers everything written before it, then end-of-stream ----
 
 type C03Stream struct {
-	Up        int    `json:"up"`   // bytes the client writes (after the 8-byte tag)
-	Down      int    `json:"down"` // bytes the server writes
+	Up        int    `json:"up"`     // bytes the client writes (after the 8-byte tag)
+	Down      int    `json:"down"`   // bytes the server writes
 	Closer    int    `json:"closer"` // 0 client, 1 server, 2 both (each after its own writes)
 	SizeClass int    `json:"size_class"`
 	SizeSeed  uint64 `json:"size_seed"`
